@@ -23,8 +23,26 @@ TECHNIQUE = ("Coq proofs about an interleaving model (threads = program counter 
              "C16/C17's lemmas about send_process; model tied to the real Session + Connection + FIXWriter by running "
              "2-8 REAL threads on one session over an in-memory socket (ASan/UBSan; thorough: TSan), feeding the observed "
              "wire order to the model as the schedule and comparing traces byte for byte")
-LEVEL_TEXT = "(see Props/Properties_C25.v)"
-LEVEL_NOTE = ""
+LEVEL_TEXT = ("c25_threaded: pm_thread, for every schema, start state after START, thread count, programs of plain "
+              "send/send_batch calls and EVERY schedule, at every point of the run the modelled wire is exactly the messages "
+              "that have been through a critical section, each once, in that order, carrying start, start+1, ...; the store has "
+              "grown by exactly the application messages under their numbers with their wire bytes; per thread sent ++ "
+              "still-to-send = its program; every call returned the number of its messages. c25_pipelined: pm_pipeline (pushes "
+              "with and without _con_spl, writer thread popping), every schedule: popped is a prefix of pushed (wire order = "
+              "queue order), wire ++ batch buffer = the popped messages numbered consecutively, buffer empty whenever the last "
+              "popped message closes a batch, and at quiescence everything submitted is on the wire. c25_foreign_in_batch: a "
+              "foreign single queued inside a batch flushes the buffer, nothing lost or duplicated. c25_wire_content: the k-th "
+              "wire message reads as a new message with MsgSeqNum start+k, the submitted type and body. c25_oracle_threaded / "
+              "_pipelined: the oracle accepts the model's output under every schedule (pairwise different bodies). c25_numbers: "
+              "acceptance implies pairwise different, consecutive numbers. c25_after_start: the state hypotheses hold after every "
+              "START.")
+LEVEL_NOTE = ("Trusted: Coq kernel; extraction; the hand transcriptions coq/C25/Conc.v and coq/Sess/*.v (checked by the "
+              "correspondence run under the observed linearisation, byte-exact wire / store / numbers / return values); harness. "
+              "Modelled, not proved: one critical section of _con_spl = one atomic step (mutual exclusion of pthread_spin_lock), "
+              "the FastFlow queue = atomic FIFO (C30's theorems are the licence), sequentially consistent interleaving. The "
+              "clause 'no data race occurs' is not a theorem: TSan cases (thread / coro: no report observed; pipeline: the "
+              "FastFlow hand-over, one known finding). Theorems are for plain messages; custom sequence numbers, no_increment, "
+              "SequenceReset are covered by the tie only (C16/C17 say what they do sequentially).")
 DESIGN_REF = "DESIGN.md section 4, Concurrency group and C25; coq/Sess/READY.md"
 PROPS_FILE = "Props/Properties_C25.v"
 COQ_TARGETS = ["Props/Properties_C25.vo", "Extract/Extract_C25.vo"]
@@ -96,29 +114,36 @@ def build(tier):
 SEP = " ## "
 
 
-def _family_ffq(acc, alloc):
-    """A report that is a consequence of the FastFlow queue synchronising through plain volatile accesses: either an access
-    inside the queue itself, or an access to a message (or queue node) that one side handed to the other through it."""
+def _family_ffq(acc, who, writer):
+    """A report that is a consequence of the FastFlow queue synchronising through plain volatile accesses (no C++11
+    atomics): TSan sees no happens-before between a thread that pushes and the writer thread that pops.  Either an
+    access inside the queue itself, or a pair of accesses of which exactly ONE is by the writer thread (the thread
+    created by FIXWriter::start) -- the message objects handed over, and everything else the application / main thread
+    did before the push and the writer does after the pop (e.g. the persister the harness read at the previous
+    snapshot).  An access made from Session::heartbeat_service (the ticker thread) is never put into this family."""
     for st in acc:
         for fn, path in st:
             if "/ff/" in path or fn.startswith("ff::"):
                 return True
-    writer = [any("FIXWriter::execute" in fn for fn, _ in st) for st in acc]
-    if len(acc) == 2 and writer[0] != writer[1]:
-        for fn, path in alloc:
-            if ("SessHarness::build" in fn or "Minst::_gen::_make" in fn or "create_field" in fn or fn.startswith("ff::")
-                    or "ff_malloc" in fn or "/ff/" in path):
-                return True
+    if len(acc) == 2 and writer is not None and (who[0] == writer) != (who[1] == writer):
+        other = acc[1] if who[0] == writer else acc[0]
+        if not any("heartbeat_service" in fn for fn, _ in other):
+            return True
     return False
 
 
 def _short(fn):
-    fn = re.sub(r"\(.*$", "", fn)
     prev = None
     while prev != fn:
         prev = fn
+        fn = re.sub(r"\([^()]*\)", "", fn)
         fn = re.sub(r"<[^<>]*>", "", fn)
-    return fn.replace(" ", "")
+    return fn.replace(" const", "").replace(" ", "")
+
+
+FRAME_RE = re.compile(r"\s+#\d+ (.*?) (\S+?)(?::\d+)*(?: \(\S+\))?$")
+ACCESS_RE = re.compile(r"  (?:Previous )?(?:atomic )?(?:read|write) of size \d+ at \S+ by (main thread|thread T\d+)", re.I)
+THREAD_RE = re.compile(r"  Thread (T\d+) ")
 
 
 def tsan_races(err, pipeline):
@@ -131,20 +156,27 @@ def tsan_races(err, pipeline):
                 if "WARNING: ThreadSanitizer:" in rep:
                     keys.add(re.search(r"WARNING: ThreadSanitizer: ([a-z \-]+)", rep).group(1).strip().replace(" ", "-"))
                 continue
-            acc, alloc, cur = [], [], None
+            acc, who, threads, cur = [], [], {}, None
             for line in rep.split("\n"):
-                if re.match(r"  (Previous )?(atomic )?(read|write) of size", line, re.I):
+                m = ACCESS_RE.match(line)
+                t = THREAD_RE.match(line)
+                if m:
                     cur = []
                     acc.append(cur)
-                elif line.startswith("  Location is"):
-                    cur = alloc
-                elif line.startswith("  Thread ") or line.startswith("  Mutex ") or line.startswith("SUMMARY"):
+                    who.append(m.group(1).replace("thread ", ""))
+                elif t:
+                    cur = threads.setdefault(t.group(1), [])
+                elif line.startswith("  Location is") or line.startswith("  Mutex ") or line.startswith("SUMMARY"):
                     cur = None
                 else:
-                    m = re.match(r"\s+#\d+ (.*?) (\S+?)(?::\d+)*(?: \(\S+\))?$", line)
-                    if m and cur is not None:
-                        cur.append((m.group(1), m.group(2)))
-            if pipeline and _family_ffq(acc, alloc):
+                    f = FRAME_RE.match(line)
+                    if f and cur is not None:
+                        cur.append((f.group(1), f.group(2)))
+            writer = None
+            for tn, st in threads.items():
+                if any("FIXWriter::start" in fn for fn, _ in st):
+                    writer = tn
+            if pipeline and _family_ffq(acc, who, writer):
                 keys.add("ff-queue-handoff")
                 continue
             sites = []
@@ -167,7 +199,7 @@ def _run_tsan(built, line):
     env["VERIF_RUN_DIR"] = core.run_dir()
     try:
         p = subprocess.run(built["tsan"], input=(line + "\n").encode(), stdout=subprocess.PIPE, stderr=subprocess.PIPE,
-                           timeout=180, env=env, cwd=core.run_dir())
+                           timeout=400, env=env, cwd=core.run_dir())
     except subprocess.TimeoutExpired:
         return "HANG"
     out = p.stdout.decode(errors="replace").split("\n")
